@@ -507,6 +507,10 @@ def main(argv=None):
     prop = a.prop.upper()
     sys.path.insert(0, VERIF)
     os.chdir(VERIF)
+    # aiohttp logs every handled error with a traceback; without a handler Python's last-resort handler prints them
+    # to stderr (hundreds of KB per run).  A NullHandler keeps the records available to harness-installed handlers.
+    import logging
+    logging.getLogger("aiohttp").addHandler(logging.NullHandler())
     module = importlib.import_module(f"harness.{prop.lower()}")
     ctx = Ctx(prop, a.tier, a.seed, module)
     Ctx._disagreements = {}
